@@ -9,7 +9,7 @@ namespace Dawgs.C07.Repair
 def namespaceDot : Bool := false
 /-- fix2: `*n` without `..` is the exact length n..n (old: read as `*n..`) -/
 def exactHops : Bool := false
-/-- fix3: one Negation per NOT token, and `not not x` is written without parentheses (old: ONE Negation whatever the number) -/
+/-- fix3: one Negation per NOT token (old: ONE Negation whatever the number); format.go writes the inner one in parentheses -/
 def nestedNot : Bool := false
 /-- fix5: a chained property lookup in SET / REMOVE (`n.a.b`) is reported as unsupported (old: the last key silently wins) -/
 def chainedLookupRejected : Bool := false
